@@ -8,7 +8,8 @@ Result on 2026-10-02 (pinned commit): every candidate below passes the existing 
 alone and all together, EXCEPT F4 (changes Profile.ScaleN; breaks
 TestNormalizeByDifferentProfile, which silently relies on the dropped sample) and F7a
 (breaks the heap goldens of driver TestParse, which encode the defect). F4alt is the
-narrower repair in measurement.ScaleProfiles that passes.
+narrower repair in measurement.ScaleProfiles that passes. F5d, F11c and F15 were added
+later and pass as well (21 candidates pass together).
 """
 import json,sys,os
 R='/repo/'
@@ -294,6 +295,63 @@ fx('F4alt','internal/measurement/measurement.go',[("""		if err := p.ScaleN(ratio
 					s.Value[i] = int64(math.Round(float64(v) * ratios[i]))
 				}
 			}
+		}""")])
+
+
+fx('F15','profile/filter.go',[("""		if show != nil {
+			l.Line = l.matchedLines(show)
+			if len(l.Line) == 0 {
+				hidden[l.ID] = true
+			} else {
+				hnm = true
+			}
+		}""","""		if show != nil {
+			if m := l.Mapping; m != nil && show.MatchString(m.File) {
+				// The whole location is shown, even if it carries no line
+				// information (unsymbolized).
+				hnm = true
+			} else {
+				l.Line = l.matchedLines(show)
+				if len(l.Line) == 0 {
+					hidden[l.ID] = true
+				} else {
+					hnm = true
+				}
+			}
+		}""")])
+fx('F11c','internal/report/report.go',[("""func callgrindName(names map[string]int, name string) string {
+	if name == "" {
+		return ""
+	}""","""func callgrindName(names map[string]int, name string) string {
+	if name == "" {
+		return ""
+	}
+	// A line break would split the position specification.
+	name = strings.NewReplacer("\\r", " ", "\\n", " ").Replace(name)""")])
+fx('F5d','internal/graph/graph.go',[("""	score := float64(0)
+	total := self
+	for _, e := range edges {
+		if e.Weight > 0 {
+			total += abs64(e.Weight)
+		}
+	}
+	if total != 0 {
+		for _, e := range edges {
+			frac := float64(abs64(e.Weight)) / float64(total)
+			score += -frac * math.Log2(frac)
+		}""","""	score := float64(0)
+	total := self
+	for _, e := range edges {
+		if e.Weight > 0 {
+			total += abs64(e.Weight)
+		}
+	}
+	if total != 0 {
+		// Add the terms in a fixed order: floating-point addition is not
+		// associative and map iteration order is random.
+		for _, e := range edges.Sort() {
+			frac := float64(abs64(e.Weight)) / float64(total)
+			score += -frac * math.Log2(frac)
 		}""")])
 
 which=sys.argv[1].split(',')
